@@ -18,12 +18,20 @@ ASSUMPTIONS = [
     "loopback UDP with a receive queue that is not overrun (SO_RCVBUFFORCE 8 MB per socket in the harness) is lossless and ordered per receiver",
     "recvfrom fills in the sender's bound address",
     "a bound UDP socket is reported writable by poll; readable iff a datagram is queued",
+    "within one case socket ordinals and async message ids are not re-used and operations name live sockets of the right API level "
+    "(the harness skips anything else; such operations are no-ops of the composed model Udp.sysStep)",
 ]
-TRUSTED = ["kernel UDP/loopback (the channel assumption is the definition of NetOp.deliver)"]
+TRUSTED = ["kernel UDP/loopback (the channel assumption is the definition of NetOp.deliver)",
+           "OS answers of the composed model (Udp.osWait/osSend: sendto fails with EMSGSIZE above 65507 (v4) / 65527 (v6) bytes, otherwise as scripted; "
+           "Step: the observed answer of its sendto) - compared with the real kernel / shim on every run",
+           "parsing of transcript lines into the typed observations Udp.Obs (Drive/C09.lean)"]
 ALL_TAGS = ["v4", "v6", "sock.basic", "sock.buff", "sock.async", "send.ok", "send.empty", "send.timeout", "send.fail", "send.emsgsize",
             "send.short", "recv.trunc", "recv.exact", "recv.fits", "recv.empty", "recv.none", "arecv", "asend", "asend.ok", "asend.fail",
             "asend.after_fail", "destroy.pending", "destroy.idle"]
 EXHAUSTIVE = {"thorough": False}
+# "-> skipped" is an observation of this property (an unlimited ReceiveFrom on a socket that is not readable is not attempted),
+# not the framework's "-> skip <reason>" (environment trouble during set-up): without this a third of the cases was excluded unchecked
+SKIP_MARKER = "-> skip "
 SHRINK = True
 
 SIZES = [0, 0, 1, 1, 2, 3, 17, 17, 100, 100, 1472, 1473, 9000, 65507, 65508, 65527, 65528]
@@ -123,7 +131,8 @@ def gen(rng, tier):
 
 
 TECHNIQUE = ("Lean 4 theorems (all sizes/timeouts/answers for SendTo; invariant over all send/receive histories of the datagram network; "
-             "invariant over all SendToQ action histories) + model/implementation correspondence over loopback with scripted sendto/poll")
+             "invariant over all SendToQ action histories; simulation proof that the executable property predicate accepts every trace of the "
+             "composed model) + model/implementation correspondence over loopback with scripted sendto/poll")
 LEVEL_TEXT = ("Machine-checked Lean 4 theorems about an executable model of SocketImpl::SendTo (one wait, one sendto), of ReceiveFrom at the "
               "three API levels (payload truncated to the caller's size / rxBufSize, source reported), of the per-receiver datagram FIFO, and of the "
               "async SendToQ: result in {len, 0} with 0 only for an expired limited wait (sendTo_all_or_nothing), report = prefix + source and "
@@ -133,7 +142,14 @@ LEVEL_TEXT = ("Machine-checked Lean 4 theorems about an executable model of Sock
               "(asyncSendTo_isolated_failure), the datagrams handed to the OS are exactly the enqueued ones whose future has a value, in order "
               "(asyncSendTo_future_truth). Tied to /repo on every run: real SocketUdp / SocketUdpBuffered / SocketUdpAsync sockets on one Driver over "
               "IPv4 and IPv6 loopback, sizes 0..65528, truncating receives, virtual-clock timeouts, errno injection and real EMSGSIZE; every "
-              "result, report (length, hash, source), future and pool state is compared with the model and the property is evaluated on the observations.")
+              "result, report (length, hash, source), future and pool state is compared with the model and the property is evaluated on the observations. "
+              "The property predicate is Spec/C09.lean (typed observations Udp.Obs, total functions specStep/specRun: SendTo results, every report = "
+              "the fitting prefix of the oldest outstanding datagram with its sender, nothing lost/duplicated/invented, one socket task per step, async "
+              "sends in queue order and not held up, future letters and returned buffers); the driver only parses lines into Udp.Obs and calls it, and "
+              "theorem spec_holds_on_model (= Udp.model_satisfies_spec, no hypothesis) proves that this very predicate accepts every trace of the composed "
+              "model Udp.sysStep (sendTo + datagram network + one SendToQ per socket + the driver's dispatch order, built from the functions of "
+              "Model/Udp.lean) for every history of operations of any length with arbitrary arguments and OS answers - so a spec verdict on the "
+              "implementation is provably a difference between implementation and model.")
 LEVEL_NOTE = ("Trusted: Lean kernel; axioms propext/Quot.sound/Classical.choice; hand-written model (correspondence on generated histories only); "
               "kernel UDP delivery and recvfrom's source address (channel assumption); harness and vos shim. The POLLOUT arming race of the async "
               "path is the one proved for C02 (same DoSend template); the SendToQ model merges enqueue and arm.")
